@@ -10,8 +10,16 @@
    Not proved: sum over users <= emission per farm-epoch (needs total >= sum of users' weights, C10, false in the
    F-sat class) and "no claim makes another user's rightful claim fail"; both are covered by the correspondence only.
    Statements only. *)
-From MD.Model Require Import Base Ownable Epoch PoolMath Types PoolManager FarmManager.
-From MD.Proofs Require Import WeightProofs FarmProofs RewardProofs.
+From MD.Model Require Import Base Ownable Epoch PoolMath Types PoolManager FarmManager Chain.
+From MD.Proofs Require Import WeightProofs FarmProofs RewardProofs FarmCustody FarmCustodyChain.
+
+(* over ALL histories (any users, any interleaving, rejected operations, injected faults): the recorded payouts of
+   every farm of every reachable world stay within what the farm was funded with; together with C05 (the farm manager's
+   balance covers all positions plus all unclaimed budgets) no claim can draw on another farm's or a position's funds *)
+Theorem C06_payouts_never_exceed_funding_in_any_reachable_world : forall g w0 ops f,
+  genesis_world g = Ok w0 -> 0 <= amount_of (fm_create_fee (g_fm g)) -> Forall op_ok ops ->
+  In f (fm_farms (w_fm (run w0 ops))) -> 0 <= f_claimed f <= amount_of (f_asset f).
+Proof. exact reachable_claimed_bounded. Qed.
 
 Theorem C06_every_reward_within_budget_and_after_cursor : forall s f lp recv until lc rs,
   farm_rewards s f lp recv until lc = Ok rs ->
@@ -48,3 +56,4 @@ Proof. exact claim_moves_cursor. Qed.
 Print Assumptions C06_every_reward_within_budget_and_after_cursor.
 Print Assumptions C06_claimed_amount_bounded.
 Print Assumptions C06_no_epoch_paid_twice.
+Print Assumptions C06_payouts_never_exceed_funding_in_any_reachable_world.
